@@ -397,7 +397,30 @@ func (c *ConnTap) observe(d *DatagramInfo) {
 	if dir == S2C && !c.ClientHSDelivered && !c.RetryTokenDelivered {
 		c.Counts["c14_amplification_checks"]++
 		if c.BytesEmitted[S2C] >= 3*c.BytesDeliv[C2S] {
-			c.anomaly("C14", "C14|wire|amplification-limit-exceeded", "server sends a %d-byte datagram to an unvalidated address after %d bytes sent and only %d bytes received (limit %d)", len(d.Raw), c.BytesEmitted[S2C], c.BytesDeliv[C2S], 3*c.BytesDeliv[C2S])
+			// reported at the end of observe, when the datagram's content is known
+			sent, rcvd := c.BytesEmitted[S2C], c.BytesDeliv[C2S]
+			defer func() {
+				sig := "C14|wire|amplification-limit-exceeded"
+				onlyClose := len(d.Packets) > 0
+				for i := range d.Packets {
+					p := &d.Packets[i]
+					if !p.Opened && strings.HasPrefix(p.Err, "post-close server packet") {
+						continue
+					}
+					if !p.Opened || len(p.Frames) == 0 {
+						onlyClose = false
+					}
+					for _, f := range p.Frames {
+						if f.Type != FtConnClose && f.Type != FtConnCloseApp && f.Type != FtPadding {
+							onlyClose = false
+						}
+					}
+				}
+				if onlyClose {
+					sig += "|connection-close"
+				}
+				c.anomaly("C14", sig, "server sends a %d-byte datagram to an unvalidated address after %d bytes sent and only %d bytes received (limit %d)", len(d.Raw), sent, rcvd, 3*rcvd)
+			}()
 		}
 		if c.BytesEmitted[S2C]+int64(len(d.Raw)) > 3*c.BytesDeliv[C2S] {
 			c.Counts["c14_datagrams_crossing_limit"]++
